@@ -78,13 +78,16 @@ const (
 type event map[string]interface{}
 
 type recorder struct {
-	mu  sync.Mutex
-	evs []event
+	mu     sync.Mutex
+	evs    []event
+	sealed bool // the scenario was ended by the driver; goroutines it left behind record nothing anymore
 }
 
 func (r *recorder) add(e event) {
 	r.mu.Lock()
-	r.evs = append(r.evs, e)
+	if !r.sealed {
+		r.evs = append(r.evs, e)
+	}
 	r.mu.Unlock()
 }
 
@@ -405,6 +408,8 @@ func runScenario(t *testing.T, sc scenario, sf, af string, progress *hx.Log) []e
 	// watchdog: a non-blocking route whose Dispatch does not return is reported and the server released,
 	// so that the scenario can end
 	stopWatch := make(chan struct{})
+	abandon := make(chan struct{}) // a Dispatch call of a blocking route has been pending for quiesceDeadline
+	abandoned := false
 	var watchWG sync.WaitGroup
 	watchWG.Add(1)
 	go func() {
@@ -419,6 +424,13 @@ func runScenario(t *testing.T, sc scenario, sf, af string, progress *hx.Log) []e
 			case <-tk.C:
 				for g := 0; g < nd; g++ {
 					s := atomic.LoadInt64(&starts[g])
+					if sc.Blocking && s != 0 && !abandoned && time.Since(time.Unix(0, s)) > quiesceDeadline {
+						// the full queue this caller waits on (accepted points) has not moved for the whole
+						// deadline although the endpoint answers again: the same observation as a failed quiesce
+						abandoned = true
+						release()
+						close(abandon)
+					}
 					if s != 0 && s != reported[g] && time.Since(time.Unix(0, s)) > slowDispatch {
 						reported[g] = s
 						if !sc.Blocking {
@@ -478,7 +490,35 @@ func runScenario(t *testing.T, sc scenario, sf, af string, progress *hx.Log) []e
 			}
 		}(g)
 	}
-	wg.Wait()
+	dispatched := make(chan struct{})
+	go func() {
+		wg.Wait()
+		close(dispatched)
+	}()
+	select {
+	case <-dispatched:
+	case <-abandon:
+		// give the route one more deadline with a working endpoint, then end the scenario without its blocked caller
+		ok := false
+		select {
+		case <-dispatched:
+			ok = quiesce()
+		case <-time.After(quiesceDeadline):
+		}
+		close(stopWatch)
+		watchWG.Wait()
+		rec.add(event{"ev": "quiesce", "ok": ok, "blocked_caller": true})
+		gw.mu.Lock()
+		np, nh := gw.nposts, gw.hung
+		gw.mu.Unlock()
+		rec.add(event{"ev": "final", "drops": int(drops.Count() - drops0), "errs": int(errs.Count() - errs0),
+			"posts": np, "hung": nh})
+		progress.Emit(event{"k": sc.K, "at": "done", "abandoned": true})
+		rec.mu.Lock()
+		defer rec.mu.Unlock()
+		rec.sealed = true
+		return rec.evs
+	}
 	release()
 	close(stopWatch)
 	watchWG.Wait()
